@@ -153,7 +153,7 @@ func (w *world) newVoter() {
 func vtName(t ucon.VoteType) string { return ucon.VoteTypeToString(t) }
 
 func run(c *kit.Ctx) {
-	n := c.N(960, 100000)
+	n := c.N(960, 40000)
 	for i := 0; i < n; i++ {
 		id := fmt.Sprintf("h%d", i)
 		if !c.Mine(i, id) {
